@@ -14,22 +14,27 @@ from mc.common import replay_via
 ID = 'C17'
 LEVEL = 'exploration'
 PRELOAD = ['frame.geometry.geometry', 'frame.netlist.netlist', 'frame.die.die', 'frame.allocation.allocation', 'ruamel.yaml', 'mc.common', 'tools.force.fruchterman_reingold', 'mpmath']
-RULE = ("radius pairs (r1,r2) from {1,0.1,0.3,1/3,2.5,7,1e-3,1e3,123.456,1e-9} (all 100 ordered pairs) x base distance in "
+RULE = ("radius pairs (r1,r2) from {1,0.1,0.3,1/3,2.5,7,1e-3,1e3,123.456,1e-9} (all 100 ordered pairs) and almost equal pairs (r, r*(1+g)), g in {1 ulp, 1e-12 .. 1e-4}, x base distance in "
         "{r1+r2, |r1-r2|, 0, (r1+r2)/2, r1, r2, sqrt(|r1^2-r2^2|)} x ulp offsets -J..J x 4 directions x 2 origins, plus relative neighbourhoods base*(1+k*10^-e), e=4..7, |k|<=4, all evaluated in one process per radius pair (so a stale cache or coarse rounding shows); a case is "
         "non-trivial when the exact configuration is a proper lens or within 1e-9*max(r) of a tangency; cases are distinct inputs")
 ASSUMPTIONS = ["the oracle is the closed-form lens area evaluated at 60 significant digits (mpmath) on the same float inputs",
-               "tolerance is the property's own: 1e-5 * max(r1,r2)^2"]
-BOUNDS = {'quick': 'J=16, 10 radii; total_intersection_area on all arrangements of 3-4 discs from a menu', 'thorough': 'J=200, 18 radii'}
+               "accuracy and symmetry tolerance is the property's own: 1e-5 * max(r1,r2)^2; the bounds 0 <= area <= pi*min(r)^2 are checked without tolerance"]
+BOUNDS = {'quick': 'J=16, 10 radii + 9 relative gaps for almost equal radii; total_intersection_area on all arrangements of 3-4 discs from a menu', 'thorough': 'J=200, 18 radii, 21 relative gaps'}
 
 RADII = [1.0, 0.1, 0.3, 1 / 3, 2.5, 7.0, 1e-3, 1e3, 123.456, 1e-9]
 RADII_T = RADII + [0.7, 3.3, 1e-2, 50.5, 2.0, 1e-6, 1e6, 3e-12]
+# almost equal radii r2 = r1*(1+gap): the difference of the squares of the radii cancels, internal tangency at d ~ gap*r1
+GAPS = [2.0 ** -52, 1e-12, 1e-10, 1e-9, 1e-8, 1e-7, 1e-6, 1e-5, 1e-4]
+GAPS_T = GAPS + [2.0 ** -51, 3e-16, 1e-15, 1e-14, 1e-13, 1e-11, 3e-9, 3e-8, 3e-7, 1e-3, -1e-8, -1e-10]
 DIRS = [(1.0, 0.0), (0.0, 1.0), (0.6, 0.8), (2 ** -0.5, 2 ** -0.5)]
 ORIGINS = [(0.0, 0.0), (100.1, -37.3)]
 
 
 def shards(tier):
     rad = RADII if tier == 'quick' else RADII_T
-    return [dict(i=i, j=j) for i in range(len(rad)) for j in range(len(rad))] + [dict(total=k) for k in range(8)]
+    gaps = GAPS if tier == 'quick' else GAPS_T
+    return [dict(i=i, j=j) for i in range(len(rad)) for j in range(len(rad))] + [dict(total=k) for k in range(8)] + \
+        [dict(i=i, gap=g) for i in range(len(rad)) for g in gaps]
 
 
 def check_total(case, res):
@@ -105,7 +110,8 @@ def check_case(case, res):
             continue
         if abs(v - float(exact)) > tol:
             res.violation('accuracy', case, attrs, float(exact), v)
-        if v < -tol or v > math.pi * min(r1, r2) ** 2 + tol:
+        # 'lies between zero and the area of the smaller disc': no tolerance other than the rounding of pi*r^2 itself
+        if v < 0 or v > math.pi * min(r1, r2) ** 2 * (1 + 1e-15):
             res.violation('bounds', case, attrs, [0, math.pi * min(r1, r2) ** 2], v)
     if vals[0] is not None and vals[1] is not None and abs(vals[0] - vals[1]) > tol:
         res.violation('symmetry', case, attrs, vals[0], vals[1])
@@ -130,7 +136,8 @@ def run_shard(shard, tier, res):
                     check_total(dict(discs=discs), res)
         return
     J = 16 if tier == 'quick' else 200
-    r1, r2 = RADII_T[shard['i']], RADII_T[shard['j']]
+    r1 = RADII_T[shard['i']]
+    r2 = RADII_T[shard['j']] if 'j' in shard else r1 * (1 + shard['gap'])
     bases = [r1 + r2, abs(r1 - r2), 0.0, (r1 + r2) / 2, r1, r2, math.sqrt(abs(r1 * r1 - r2 * r2))]
     seen = set()
     for base in bases:
@@ -150,8 +157,9 @@ def run_shard(shard, tier, res):
                     check_case(case, res)
     # relative neighbourhoods (steps of 1e-4 .. 1e-7 of the base distance): neighbours that a coarse
     # rounding or cache would confuse although their areas differ by more than the tolerance
-    for base in bases[:1] + bases[3:]:
-        for rel in (1e-4, 1e-5, 1e-6, 1e-7):
+    nearly_equal = 'gap' in shard
+    for base in (bases[:2] if nearly_equal else bases[:1]) + bases[3:]:
+        for rel in ((1.0, 0.1, 1e-2, 1e-3) if nearly_equal and base == bases[1] else ()) + (1e-4, 1e-5, 1e-6, 1e-7):
             for k in range(-4, 5):
                 d = base * (1 + k * rel)
                 if d < 0 or k == 0:
